@@ -345,8 +345,10 @@ def drive(pid, tier, seed):
         print("  signature: %s   (%d witnesses)" % (sig, n))
         print("  detail: %s" % json.dumps(w["detail"], default=repr)[:1500])
         print("  case: %s" % json.dumps(w["case"], default=repr)[:1500])
-    for x in inconclusive:
+    for x in inconclusive[:6]:
         print("INCONCLUSIVE property=%s reason=%s" % (pid, x[:2000]))
+    if len(inconclusive) > 6:
+        print("INCONCLUSIVE property=%s ... and %d more reasons (see evidence file)" % (pid, len(inconclusive) - 6))
 
     wall = time.time() - t0
     coverage = {
